@@ -13,6 +13,7 @@ EXPLANATION = (
     "from_str hands the base64 decoder either the parameter or the parameter minus a prefix equal to that same literal (no trim/case/replace), uses the same "
     "engine constant, returns Ok only with decode's record and only if the buffer given to decode is proved empty afterwards; Deserialize goes through from_str "
     "with the string unchanged. Not decided: the base64 crate's engine strictness (padding, trailing bits, alphabet) - library behaviour."
+    " Re-uses the C13 rules as CURSOR (decode leaves exactly the unread suffix, which from_str's trailing-data check relies on)."
 )
 TRUSTED = ["base64 0.22 URL_SAFE_NO_PAD engine rejects padding, foreign alphabet characters and non-zero trailing bits (default config)"]
 ASSUMPTIONS = []
@@ -149,6 +150,11 @@ def run(ctx, report):
                 p = ok_payload(arg)
                 if p is not None and strip(p).k == "call" and strip(p).a[0].name == "deserialize":
                     ok = True
+                    st = strip(p).a[0].self_ty or {}
+                    owned = st.get("s") in ("std::string::String", "std::borrow::Cow<'_, str>", "std::boxed::Box<str>") or (st.get("adt") in ("std::string::String", "std::borrow::Cow", "std::boxed::Box"))
+                    report.check("JSON", "Deserialize/owned", owned, "the JSON string is deserialised into an owned (or Cow) string, so every deserializer and escaped input is accepted",
+                                 "the JSON string is deserialised as %s: a borrowed &str only deserialises from input the deserializer can lend out (fails for from_value, from_reader and strings with escapes)" % st.get("s"),
+                                 fn=x.path, sp=x.span, config=cfg)
         report.check("JSON", "Deserialize", ok, "Deserialize parses the deserialised string, unchanged, with from_str", "Deserialize does not hand the JSON string unchanged to from_str", fn=x.path, sp=x.span, config=cfg)
 
 
@@ -306,3 +312,15 @@ def trailing_rule(ctx, report, f, an):
             why = "Ok is returned without checking that nothing is left after the record"
     report.check("TRAILING", "from_str/nothing-after", ok, "from_str returns Ok only if the decoded buffer is empty after the record",
                  "from_str accepts bytes after the record: " + why, fn=f.path, sp=t.sp, config=cfg)
+
+
+_own_run = run
+
+
+def run(ctx, report):
+    _own_run(ctx, report)
+    from common import Only
+    from rules import c13
+    # from_str's trailing-data check presupposes that decode leaves exactly the unread suffix in the cursor
+    c13.run(ctx, Only(report, {"MODEL": "CURSOR", "OUTER": "CURSOR", "PAYLOAD": "CURSOR", "SUFFIX": "CURSOR"}))
+
